@@ -279,6 +279,20 @@ class H:
             mutable = pycls in (list, bytearray)
         return Cell(s, pycls) if mutable else s
 
+    def msg_seq(self, name, real_time=False, pycls=list):
+        """a track: sequence of messages of unknown length (symbolic: Seq Msg; concrete: real message objects built
+        from the projected model, see messages_from_model)"""
+        if not self.sym:
+            return pycls(messages_from_model(self.values[name]))
+        from .msgs import MSG_I, MSG_R
+        ek = MSG_R() if real_time else MSG_I()
+        c = z3.Const(name, ek.seqsort)
+        self._reg(name, c)
+        # kind is 0 (Message), 1 (MetaMessage) or 2 (UnknownMetaMessage); end_of_track is a MetaMessage
+        self.ctx.assume(dsl.All(0, z3.Length(c), lambda k: z3.And(ek.kind(c[k]) >= 0, ek.kind(c[k]) <= 2,
+                                                                   z3.Implies(ek.is_eot(c[k]), z3.And(ek.kind(c[k]) == 1, ek.pay(c[k]) == 0)))))
+        return SSeq(c, pycls, ek)
+
     def const(self, name, value):
         return value
 
@@ -306,6 +320,27 @@ class PreconditionFailed(Exception):
     pass
 
 
+def messages_from_model(items):
+    """real message objects for projected track elements {kind, type, time, pay}: only `end_of_track`, the kind and
+    the identity (pay) matter to the track functions, so representatives are used for everything else"""
+    import mido
+    out = []
+    for it in items:
+        kind, typ, time, pay = it['kind'], it['type'], it['time'], it['pay']
+        if typ == 'end_of_track':
+            out.append(mido.MetaMessage('end_of_track', time=time))
+        elif typ == 'set_tempo':
+            out.append(mido.MetaMessage('set_tempo', tempo=abs(pay) % 16777216, time=time))
+        elif kind == 0:
+            p = abs(pay)
+            out.append(mido.Message('control_change', control=p % 128, value=(p // 128) % 128, channel=(p // 16384) % 16, time=time))
+        elif kind == 1:
+            out.append(mido.MetaMessage('text', text='m%d' % pay, time=time))
+        else:
+            out.append(mido.UnknownMetaMessage(0x60, data=[abs(pay) % 256], time=time))
+    return out
+
+
 # ---------------------------------------------------------------- model projection
 def model_value(m, t):
     """Python value of z3 term t under model m"""
@@ -325,7 +360,13 @@ def model_value(m, t):
         return v.as_string()
     if z3.is_seq(t):
         n = m.eval(z3.Length(t), model_completion=True).as_long()
-        return [model_value(m, t[i]) for i in range(n)]
+        return [model_value(m, t[i]) for i in range(min(n, 64))]
+    if s.kind() == z3.Z3_DATATYPE_SORT:
+        out = {}
+        for i in range(s.constructor(0).arity()):
+            acc = s.accessor(0, i)
+            out[acc.name()] = model_value(m, acc(t))
+        return out
     raise ValueError('cannot project %s' % s)
 
 
